@@ -424,3 +424,54 @@ _run_prev4 = run
 def run(unit, em):
     _run_prev4(unit, em)
     run_sharedtail(unit, em)
+
+
+# ---- clause `edgepair`: an edge is recorded in both directions, under the same conditions
+def run_edgepair(unit, em):
+    """`ExplicitLTS::addTransition(q, a, r)` keeps a successor list (`data_[a].first[q]`) and a predecessor list
+    (`data_[a].second[r]`).  The engine initialises its counters from one direction and decrements them by walking the other, so
+    both must hold the same multiset of edges.  Obligation: each direction gets exactly one push per call, and the two pushes are
+    controlled by the same branch facts (both unconditional today).  De-duplicating one direction only makes the counter of a
+    doubled edge never reach zero: the pair is never removed from the relation (seed C16-10)."""
+    from vfacts import known_facts
+    for fn in unit.functions:
+        if fn.body is None or not fn.q.replace('VATA::', '').endswith('ExplicitLTS::addTransition') or len(fn.params) < 3:
+            continue
+        pushes = {'first': [], 'second': []}
+        for c in fn.calls(lambdas=False):
+            if c['k'] == 'CXXMemberCallExpr' and method_name(c) in ('push_back', 'emplace_back', 'insert'):
+                o = c.get('obj')
+                # direct `data_[a].first[q]` or through a local reference to it
+                exprs = [o]
+                so = strip(o)
+                if so is not None and so['k'] == 'DeclRefExpr' and so.get('dk') == 'local':
+                    from .prov import local_sources
+                    exprs = local_sources(fn, so.get('d')) or [o]
+                for e in exprs:
+                    for x in walk(e):
+                        if x['k'] == 'MemberExpr' and x.get('n') in pushes and x.get('cls', '').startswith('std::pair'):
+                            pushes[x['n']].append(c)
+        if not pushes['first'] and not pushes['second']:
+            em.unknown(fn, 'ExplicitLTS::addTransition', 'edge lists not recognised', 'edgepair')
+            continue
+        def facts_of(c):
+            f, _ = known_facts(c)
+            return sorted('%s%s' % ('' if pol else '!', unit.text(a, 80)) for pol, a in f)
+        txt = 'ExplicitLTS::addTransition: successor / predecessor lists'
+        if len(pushes['first']) != 1 or len(pushes['second']) != 1:
+            em.violation(fn, txt, 'each call must add the edge once to the successor list and once to the predecessor list (found %d / %d insertions)' % (len(pushes['first']), len(pushes['second'])), 'edgepair')
+            continue
+        fa, fb = facts_of(pushes['first'][0]), facts_of(pushes['second'][0])
+        if fa == fb:
+            em.ok(pushes['second'][0], txt, 'both directions are recorded under the same conditions', 'edgepair')
+        else:
+            em.violation(pushes['second'][0], txt, 'the successor list is filled under %s but the predecessor list under %s: the two directions no longer hold the same edges (with multiplicity), and the engine '
+                         'counts along one and decrements along the other' % (fa or 'no condition', fb or 'no condition'), 'edgepair')
+
+
+_run_prev5 = run
+
+
+def run(unit, em):
+    _run_prev5(unit, em)
+    run_edgepair(unit, em)
